@@ -36,7 +36,7 @@ inductive RAct where
 
 inductive WOp where
   | ent (op : EOp)
-  | reg (k : Nat) (path : Nat)                       -- 0 register, 1 register_with_storage, 2 SystemData::setup
+  | reg (k : Nat) (path : Nat)                       -- 0 register, 1 register_with_storage, 2 SystemData::setup, 3 plain resource insert + setup
   | createWith (atomic dropped : Bool) (comps : List (Nat × Int))
   | get (k h : Nat)
   | getMut (k h derefs : Nat) (write : Option Int)
